@@ -262,9 +262,9 @@ impl<T: BuildSchema> BuildSchema for Option<T> {
 		let inner = builder.find_or_build::<T>();
 		let variants = match &builder.nodes[inner.idx()].type_ {
 			RegularType::Union(union) => std::iter::once(null)
-				.chain(union.variants.iter().copied().filter(|v| {
-					!matches!(builder.nodes[v.idx()].type_, RegularType::Null)
-				}))
+				// (`null` is recognized by its key: the nodes of the types that are still being
+				// built are placeholders at this point, which we should not mistake for it)
+				.chain(union.variants.iter().copied().filter(|&v| v != null))
 				.collect(),
 			_ => vec![null, inner],
 		};
